@@ -151,9 +151,15 @@ fn matrix_scenario<B: Fld, E: FieldElement<BaseField = B>, H: ElementHasher<Base
 }
 
 fn prove_scenario<B: Fld, H: ElementHasher<BaseField = B> + Send + Sync>(n: usize, aux: Aux, ext: u8, blowup: usize) -> Vec<u8> {
+    prove_scenario_c::<B, H>(n, aux, ext, blowup, 8)
+}
+
+/// `cycle`: length of the periodic column used by the second transition rule (short cycles divide every
+/// fragment of the constraint evaluation table, long ones straddle fragments)
+fn prove_scenario_c<B: Fld, H: ElementHasher<BaseField = B> + Send + Sync>(n: usize, aux: Aux, ext: u8, blowup: usize, cycle: usize) -> Vec<u8> {
     let spec = AirSpec {
         n,
-        rules: vec![Rule::Pow { d: 2, c: 1 }, Rule::Periodic { cycle: 8, c: 3 }, Rule::FibA, Rule::FibB, Rule::Rot { order: 4 }],
+        rules: vec![Rule::Pow { d: 2, c: 1 }, Rule::Periodic { cycle, c: 3 }, Rule::FibA, Rule::FibB, Rule::Rot { order: 4 }],
         exemptions: 2,
         asserts: vec![ASpec { col: 0, kind: AKind::Single(0) }, ASpec { col: 4, kind: AKind::Periodic { first: 0, stride: 4 } }, ASpec { col: 1, kind: AKind::Sequence { first: 1, stride: n / 64 } }],
         aux,
@@ -206,6 +212,10 @@ pub fn scenarios(thorough: bool) -> Vec<Scenario> {
     add("prove/f64/blake3/n1024".into(), Box::new(|| prove_scenario::<B64, hashers::Blake3_256<B64>>(1024, Aux::None, 1, 4)));
     add("prove/f64/blake3/n4096".into(), Box::new(|| prove_scenario::<B64, hashers::Blake3_256<B64>>(4096, Aux::None, 1, 4)));
     add("prove/f64/blake3/n4096/aux+lagrange/quadratic".into(), Box::new(|| prove_scenario::<B64, hashers::Blake3_256<B64>>(4096, Aux::SumLagrange { cols: 2, rands: 3 }, 2, 4)));
+    // periodic columns as long as the trace / a quarter of it: their table straddles the fragments
+    add("prove/f64/blake3/n4096/cycle4096".into(), Box::new(|| prove_scenario_c::<B64, hashers::Blake3_256<B64>>(4096, Aux::None, 1, 4, 4096)));
+    add("prove/f64/blake3/n4096/cycle1024".into(), Box::new(|| prove_scenario_c::<B64, hashers::Blake3_256<B64>>(4096, Aux::None, 1, 4, 1024)));
+    add("prove/f64/blake3/n4096/aux/cycle4096".into(), Box::new(|| prove_scenario_c::<B64, hashers::Blake3_256<B64>>(4096, Aux::Sum { cols: 1, rands: 1 }, 1, 4, 4096)));
     if thorough {
         add("prove/f128/sha3/n8192/aux".into(), Box::new(|| prove_scenario::<B128, hashers::Sha3_256<B128>>(8192, Aux::Sum { cols: 1, rands: 1 }, 1, 2)));
         add("prove/f64/rp64/n4096/cubic".into(), Box::new(|| prove_scenario::<B64, hashers::Rp64_256>(4096, Aux::None, 3, 4)));
